@@ -11,7 +11,8 @@
    C undefined behaviour made total here as gcc/x86-64 executes it (stated in the evidence,
    excluded from the correspondence where noted):
      * signed overflow of + - * and unary -  : wraps (this IS the property's claim);
-     * INT_MIN / -1, INT_MIN % -1            : the idiv instruction traps (SIGFPE) -> ISigFpe;
+     * INT_MIN / -1, INT_MIN % -1 with the raw operators (cdiv/cmod; still used by the
+       enum arms of front/constred.c)        : the idiv instruction traps (SIGFPE) -> ISigFpe;
      * shift count outside 0 <= k < n        : the count is masked to its low log2 n bits
                                                (excluded from the correspondence);
      * << of a negative / overflowing value  : wraps. *)
@@ -28,15 +29,31 @@ Inductive ires := IVal (z : Z) | IDivZero | ISigFpe.
 
 Definition div_overflows (n a b : Z) : bool := (a =? int_min n) && (b =? -1).
 
-(* the handlers test `b == 0` first and raise division_by_zero; otherwise `a / b` *)
-Definition idiv (n a b : Z) : ires :=
+(* the raw C operators a / b and a % b (b != 0 is tested by every caller first): the idiv
+   instruction traps on the overflow pair.  Like + - *, the quotient is the mathematical
+   (truncated) result brought to n bits; for in-range operands outside the overflow pair
+   the wrap is the identity (IntOpsProofs.div_truncates) *)
+Definition cdiv (n a b : Z) : ires :=
   if b =? 0 then IDivZero
   else if div_overflows n a b then ISigFpe
-  else IVal (Z.quot a b).
+  else IVal (wrap n (Z.quot a b)).
+
+Definition cmod (n a b : Z) : ires :=
+  if b =? 0 then IDivZero
+  else if div_overflows n a b then ISigFpe
+  else IVal (Z.rem a b).
+
+(* division as the VM handlers (vm_execute_op_div_type / vm_execute_op_mod_type) and the
+   int x int / long x long arms of the reducer perform it: `b == 0` raises division_by_zero,
+   then  (b == -1) ? -a : a / b   resp.  (b == -1) ? 0 : a % b  — no trap is left *)
+Definition idiv (n a b : Z) : ires :=
+  if b =? 0 then IDivZero
+  else if b =? -1 then IVal (wrap n (- a))
+  else IVal (wrap n (Z.quot a b)).
 
 Definition imod (n a b : Z) : ires :=
   if b =? 0 then IDivZero
-  else if div_overflows n a b then ISigFpe
+  else if b =? -1 then IVal 0
   else IVal (Z.rem a b).
 
 Definition b2z (b : bool) : Z := if b then 1 else 0.
